@@ -26,6 +26,7 @@ func checkC02(c *Ctx) {
 	r.Rule("C02.P4", "slice fields of by-value traversal state are only extended on fresh copies", 2)
 	r.Rule("C02.P5", "set aggregation for every consumer except uniqueValues", 3)
 	r.Rule("C02.P6", "embedded helpers search_subjects / find have the expected shape", 3)
+	r.Rule("C02.P11", "a forward and an inverse step yield the nodes they reach in the same form", 1)
 
 	g, err := loadPegGrammar(p, "internal/parser/path")
 	if err != nil {
@@ -462,6 +463,36 @@ func c02Traversal(c *Ctx) {
 			okInv := strings.Contains(inv, "search_") && strings.Contains(inv, "with data.object as") && !strings.Contains(fwd, "search_")
 			okFwd := fwd != "" && (strings.Contains(fwd, "nested_nodes") || strings.Contains(fwd, "object.get") || strings.Contains(fwd, "gen_path_extension"))
 			r.Check(okInv && okFwd, "C02.P3", key+"#converse", p.Pos(fd.Pos()), "p^ searches the subjects whose p is the current node; p reads the current node's p", "the Inverse arm does not emit the subject search (or the forward arm does): inverse="+shortFormat(inv)+" forward="+shortFormat(fwd))
+			// P11: when the step's results are not dereferenced (the caller counts or compares values), the forward arm
+			// yields the values as the node holds them — links {"@id": …} for nodes — so the inverse arm has to yield links
+			// too, or the union of a forward and an inverse step holds one node twice, once as a link and once as the
+			// full node object the subject search returns
+			if bp := boolParamName(info, fd); bp != "" {
+				worldNF := func(inverse bool) string {
+					var out []string
+					proto := &symWalker{Inline: samePkgInline(gen), Assume: map[string]bool{prm0.Name() + ".Inverse": inverse, bp: false}}
+					proto.OnCall = func(w *symWalker, call *ast.CallExpr, fn types.Object, args []*Sym, result *Sym) {
+						id, ok := ast.Unparen(call.Fun).(*ast.Ident)
+						if !ok || id.Name != "append" || len(args) < 2 || call.Ellipsis.IsValid() {
+							return
+						}
+						if tv, ok := w.info.Types[call]; !ok || tv.Type.String() != "[]string" {
+							return
+						}
+						for _, a := range args[1:] {
+							out = append(out, a.Template())
+						}
+					}
+					p.SymWalk(gen, fd, proto, nil)
+					return strings.Join(out, "\n")
+				}
+				invNF, fwdNF := worldNF(true), worldNF(false)
+				if strings.Contains(invNF, "search_subjects") && strings.Contains(fwdNF, "nodes_array") && !strings.Contains(fwdNF, "search_") {
+					fwdDerefs := strings.Contains(fwdNF, "nested_nodes") || strings.Contains(fwdNF, "find ")
+					invProjects := strings.Contains(invNF, "{\"@id\":")
+					r.Check(fwdDerefs || invProjects, "C02.P11", key+"#same-representation", p.Pos(fd.Pos()), "both directions yield the reached nodes in the same form when they are not dereferenced", "when the results are not dereferenced the forward arm yields links ({\"@id\": …}, the values as the node holds them) while the inverse arm yields the full node objects the subject search returns: in `p | q^` a node reached both ways is two members of the result set, so counts are off by one (maxCount: 1 is reported although one node is reached)")
+				}
+			}
 		}
 	}
 }
